@@ -231,6 +231,18 @@ def run(ctx):
             r = subprocess.run([os.path.join(bdir, 'xz')] + args, capture_output=True)
             if expect_fail and r.returncode == 0: viol.append(dict(why='xz %s succeeded although the limit cannot be met' % ' '.join(args[:-1]), line='', stderr=r.stderr.decode()[:300]))
             if not expect_fail and r.returncode != 0: viol.append(dict(why='xz %s failed: %s' % (' '.join(args[:-1]), r.stderr.decode()[:200]), line='', stderr=''))
+        # measured: with a compression limit the process really stays below it, whatever thread option was given (xz reduces
+        # the number of threads, switches to the single-threaded encoder, then shrinks the dictionary)
+        import base64
+        big_in = os.path.join(td, 'big'); open(big_in, 'wb').write(base64.b64encode(bytes(rng.getrandbits(8) for _ in range(12000000))))
+        lim_mib = 70
+        for topt in (['-T1'], ['-T+1'], ['-T2'], ['-T4'], ['-T0']):
+            rssf = os.path.join(td, 'rss')
+            r = subprocess.run(['/usr/bin/time', '-f', '%M', '-o', rssf, os.path.join(bdir, 'xz')] + topt + ['--memlimit-compress=%dMiB' % lim_mib, '--lzma2=preset=0,dict=8MiB', '-c', big_in], stdout=subprocess.DEVNULL, stderr=subprocess.PIPE)
+            try: rss_kib = int(open(rssf).read().split()[-1])
+            except Exception: rss_kib = 0
+            if r.returncode != 0: viol.append(dict(why='xz %s --memlimit-compress=%dMiB --lzma2=preset=0,dict=8MiB failed although the single-threaded encoder fits: %s' % (topt[0], lim_mib, r.stderr.decode()[:200]), line='', stderr=''))
+            elif rss_kib > lim_mib * 1024: viol.append(dict(why='xz %s --memlimit-compress=%dMiB --lzma2=preset=0,dict=8MiB: peak resident memory %d KiB, the limit is %d KiB' % (topt[0], lim_mib, rss_kib, lim_mib * 1024), line='', stderr=''))
     finally:
         shutil.rmtree(td, ignore_errors=True)
     ctx.cov['evaluations'] = len(lines) + len(elines) + len(tl) + len(rl) + len(rel) + len(ol) + len(mll) + len(sd_l) + 4 + len(cases) + len(pl) * (10 if ctx.quick() else 60)
